@@ -38,6 +38,12 @@ def jobs(tier, seed):
                 out.append({"id": f"refs/{rom}/{kind}/{direction}", "t": "refs", "kind": kind, "dir": direction, "rom": rom})
     for n in range(0, (3 if tier == "quick" else 4) + 1):
         out.append({"id": f"ascii/{n}", "t": "ascii", "n": n})
+    # .ascii literals holding escaped quotes (first / last / middle / only): the text between the delimiters is emitted as written
+    for k, tpl in enumerate(["\\'", "?\\'", "\\'?", "?\\'?", "\\'\\'"]):
+        out.append({"id": f"ascii-escaped-quote/{k}", "t": "ascii-q", "tpl": tpl})
+    for rom in ("low", "high"):
+        # a file longer than 64 KiB after `@=` to another ROM address: still one contiguous block at the `*=` position
+        out.append({"id": f"incbin-after-reloc/{rom}", "t": "incbin", "rom": rom, "reloc": True})
     for rom in ("low", "high"):
         out.append({"id": f"incbin/{rom}", "t": "incbin", "rom": rom})
         out.append({"id": f"incbin-scope/{rom}", "t": "incbin", "rom": rom, "scoped": True})
@@ -97,6 +103,10 @@ def run(spec, cx):
         else:
             src = f"*= p\n.{spec['kind']} lbl\nlbl:\n"
         return _outcome(assemble(src, {"p": p}, rom=spec["rom"]))
+    if t == "ascii-q":
+        chars = [cx.char(f"c{i}", ASCII_DOMAIN) if c == "?" else ord(c) for i, c in enumerate(spec["tpl"])]
+        src = cx.string([ord(x) for x in "*=0x8000\n.ascii '"] + chars + [ord(x) for x in "'\nend:\n.dl end\n"])
+        return _outcome(assemble(src, {}))
     if t == "ascii":
         chars = [cx.char(f"c{i}", ASCII_DOMAIN) for i in range(spec["n"])]
         src = cx.string([ord(x) for x in "*=0x8000\n.ascii '"] + chars + [ord(x) for x in "'\nend:\n.dl end\n"])
@@ -115,6 +125,13 @@ def run(spec, cx):
             with virtual_files(cx, {"data.bin": cx.blob("older-content", m)}):
                 assemble("*= p\n.incbin 'data.bin'\n.dl data_bin__size\n", {"p": p}, rom=spec["rom"])
         blob = cx.blob("data.bin", n)
+        if spec.get("reloc"):
+            r = cx.int("r", 0, 0xFFFFFF)
+            rt = cx.t("r")
+            cx.assume(in_rom_window(spec["rom"], rt))
+            cx.assume(rom_offset(spec["rom"], rt) + cx.t("n") + 16 < rom_range_end(spec["rom"], rt))
+            with virtual_files(cx, {"data.bin": blob}):
+                return _outcome(assemble("*= p\n@= r\n.incbin 'data.bin'\nend:\n.dl data_bin, data_bin__size, end\n", {"p": p, "r": r}, rom=spec["rom"]))
         if spec.get("srcdir"):
             from harness.common import RecWriter, new_program
 
@@ -170,6 +187,30 @@ def check(spec, cx, out):
         res.append(("reference-bytes", eq_bytes(data, le_bytes(lbl, w))))
         res.append(("offset", bv(addr) == rom_offset(spec["rom"], p)))
         return res
+    if t == "ascii-q":
+        # the literal's characters as written (the backslash of an escaped quote included), 7-bit ones emitted
+        from vf.oraclex import oracle_cases
+
+        items = [cx.t(f"c{i}") if c == "?" else ord(c) for i, c in enumerate(spec["tpl"])]
+
+        def expect_q(decide):
+            exp = []
+            for c in items:
+                if isinstance(c, int):
+                    if c < 0x80:
+                        exp.append(B(c))
+                elif decide(z3.ULT(c, 0x80)):
+                    exp.append(z3.ZeroExt(56, c))
+            return exp
+
+        conds = []
+        for assum, exp in oracle_cases(cx, expect_q):
+            pre = z3.And(*assum) if assum else z3.BoolVal(True)
+            if exp is None:
+                continue
+            want = exp + le_bytes(B(0x8000 + len(exp)), 3)
+            conds.append(z3.Not(pre) if len(blist(data)) != len(want) else z3.Implies(pre, eq_bytes(data, want)))
+        return [("ascii-bytes", z3.And(*conds) if conds else z3.BoolVal(True))]
     if t == "ascii":
         # ASCII characters are emitted as their byte; characters >= 0x80 have no ASCII byte and are
         # left out -- and the directive occupies exactly the bytes it emits (the `end` label follows them)
@@ -202,6 +243,9 @@ def check(spec, cx, out):
         segs = segs_of(data)
         endaddr = advance(rom, p, n)
         tail = le_bytes(p, 3) + le_bytes(n, 3) + le_bytes(endaddr, 3)
+        if spec.get("reloc"):
+            r = cx.t("r")
+            tail = le_bytes(r, 3) + le_bytes(n, 3) + le_bytes(advance(rom, r, n), 3)
         if spec.get("scoped"):
             tail = le_bytes(p, 3) + le_bytes(n, 3) + le_bytes(advance(rom, p, n + 6), 3)
         conds = []
